@@ -57,6 +57,9 @@ namespace c15
         std::vector<ev> evs;
         virtual void init_step() = 0;
         virtual void key(uint8_t c) = 0;
+        virtual void key16(int16_t c) = 0;   // the parameter exactly as given (a `char` argument is converted by the compiler)
+        virtual void set_prompt(const std::string &p) = 0;
+        virtual void set_echo(bool e) = 0;
         virtual int state() = 0;             // terminal automaton state
         virtual int rlstate() = 0;           // its readline's escape automaton state
         virtual unsigned len() = 0;
@@ -73,5 +76,6 @@ namespace c15
 
     // constants of the compiled headers
     std::string consts_c();
+    std::string consts2_x();   // sizeof of igris::readline's ring indices
 }
 #endif
